@@ -58,8 +58,11 @@ def behaviours(ctx, pid):
                      "every behaviour: 2 frames / 6-frame alphabet, all cuts, <=2 timeouts, all flags"))
         runs.append(("RecvSim_b", _module("RecvSim_b", rc.MC_FRAMES, tails="{ <<>>, <<129>> }"), _cfg(2, 1, 0), None,
                      "every behaviour: 2 frames / 14-frame alphabet, all cuts, <=1 timeout"))
-        runs.append(("RecvSim_s", _module("RecvSim_s", rc.MC_FRAMES, tails="{ <<>>, <<129>> }"), _cfg(4, 3, 60, skip="{FALSE, TRUE}"),
-                     "num=40000", "simulated: 4 frames / 14-frame alphabet, <=3 timeouts, all flags"))
+        # (4 frames of the 14-frame alphabet are more initial states than TLC's simulator accepts)
+        runs.append(("RecvSim_s", _module("RecvSim_s", rc.MC_FRAMES, tails="{ <<>>, <<129>> }"), _cfg(3, 3, 60, skip="{FALSE, TRUE}"),
+                     "num=30000", "simulated: 3 frames / 14-frame alphabet, <=3 timeouts, all flags"))
+        runs.append(("RecvSim_t", _module("RecvSim_t", SIM_FRAMES_SMALL), _cfg(4, 2, 70, skip="{FALSE, TRUE}"),
+                     "num=15000", "simulated: 4 frames / 6-frame alphabet, <=2 timeouts, all flags"))
     out = []
     for name, gen, cfg, sim, what in runs:
         r = tlc.run(name, cfg, "%s_%s" % (pid.lower(), name), gen=gen, timeout=3000, simulate=sim,
